@@ -19,7 +19,7 @@ def tokenOfBytes (l : List Nat) : Nat := l.foldl (fun a b => a * 256 + b) 0
 def TOKEN_NONE : Nat := tokenOfBytes P6.TOKEN_NONE
 def TOKEN_RESERVED : Nat := tokenOfBytes P6.TOKEN_RESERVED
 
-def cfg : Cfg := { chunkLim := 2 ^ P6.CHUNK_SIZE_BITS }
+def cfg : Cfg := { chunkLim := 2 ^ P6.CHUNK_SIZE_BITS, sendChecksLim := true }
 
 inductive Control where
   | keepAlive | connect | connectAccept | accept
@@ -118,7 +118,7 @@ def controlPacket (st : State) (ctl : Control) : Except Fail Packet :=
     | .online _ o => o.ack
     | _ => 0
   match st with
-  | .unconnected => .error (.panic "send_control: unreachable (Unconnected)")
+  | .unconnected => .ok (.control ack none ctl)
   | .connecting => .ok (.control ack (some TOKEN_NONE) ctl)
   | .pending t => .ok (.control ack t ctl)
   | .online t _ => .ok (.control ack t ctl)
